@@ -403,6 +403,14 @@ def quantified_rules(rep, prog):
             return any(same_set(alg, n_[1], s_) for s_ in sets_)
         if cnd[0] == "cmp" and cnd[2][0] == "ext" and cnd[2][1] == "len" and is_const(cnd[3]) and pol is True:
             return any(same_set(alg, cnd[2][2][0], s_) for s_ in sets_[:1]) and (cnd[1], cnd[3][1]) in ((">=", 2), (">", 1), (">=", 1), (">", 0), ("!=", 0))
+        if n_[0] in (">=0", ">0"):
+            # the same guards in any spelling (2 <= len(X), not len(X) < 2): len(X) - k >= 0 with k <= 2, len(X) - k > 0 with k <= 1
+            d_ = dict(n_[1])
+            k_ = d_.pop((), 0)
+            if len(d_) == 1:
+                (mono, coef), = d_.items()
+                if coef == 1 and len(mono) == 1 and mono[0][0] == "ext" and mono[0][1] == "len" and any(same_set(alg, mono[0][2][0], s_) for s_ in sets_[:1]):
+                    return (n_[0] == ">=0" and -k_ in (1, 2)) or (n_[0] == ">0" and -k_ in (0, 1))
         return False
     # ------------------------------------------------------------------ rule_3
     f = need(prog, U + "rule_3")
